@@ -86,7 +86,10 @@ def astropy_tabular_data(*args, **kwargs):
             try:
                 c = c.filled(fill_value=np.nan)
             except (ValueError, TypeError):  # assigning nan to integer dtype
-                c = c.filled(fill_value=-1)
+                try:
+                    c = c.filled(fill_value=-1)
+                except (ValueError, TypeError, OverflowError):  # unsigned integer dtype
+                    c = c.filled(fill_value=0)
 
         nc = Component.autotyped(c, units=u)
         result.add_component(nc, column_name)
